@@ -20,6 +20,24 @@ enum Msg {
     Fwd(u64),
 }
 
+/// the narrower message type of a `DerivedActorRef<DCall>` onto the callee (`get_derived`):
+/// `DerivedActorRef::call` / `cast` go through the converter closure and `internal_call`
+struct DCall(u64, RpcReplyPort<u64>);
+impl From<DCall> for Msg {
+    fn from(d: DCall) -> Msg {
+        Msg::Call(d.0, d.1)
+    }
+}
+impl TryFrom<Msg> for DCall {
+    type Error = ();
+    fn try_from(m: Msg) -> Result<DCall, ()> {
+        match m {
+            Msg::Call(i, p) => Ok(DCall(i, p)),
+            _ => Err(()),
+        }
+    }
+}
+
 /// a message type the callee does NOT accept (C02: wrong-type sends are rejected without
 /// disturbing the actor — through `cast`, `send_message` and `call` alike)
 enum Wrong {
@@ -205,7 +223,7 @@ impl World {
         t.map(Duration::from_millis)
     }
 
-    async fn call(&mut self, a: usize, t: Option<u64>, via_macro: bool) -> String {
+    async fn call(&mut self, a: usize, t: Option<u64>, via_macro: bool, via_derived: bool) -> String {
         let id = self.next_port;
         self.next_port += 1;
         let Some(ah) = self.actors.get_mut(a) else { return "bad-actor".into() };
@@ -234,6 +252,19 @@ impl World {
                         "senderError".into()
                     }
                     Err(_) => "macro-err".into(),
+                };
+            }
+            if via_derived {
+                // `DerivedActorRef::call`: converter closure + `internal_call`
+                let dr: ractor::DerivedActorRef<DCall> = r.get_derived();
+                let res = dr.call(|port| DCall(id, port), Self::timeout(t)).await;
+                return match res {
+                    Ok(cr) => {
+                        acc2.store(1, Ordering::SeqCst);
+                        show_res(&cr, |v| format!("success:{v}"))
+                    }
+                    Err(ractor::MessagingErr::SendErr(DCall(i, _))) if i == id => "sendErr".into(),
+                    Err(_) => "derived-err".into(),
                 };
             }
             let res = r.call(|port| Msg::Call(id, port), Self::timeout(t)).await;
@@ -497,8 +528,9 @@ impl World {
                 self.spawn().await;
                 "ok".into()
             }
-            ["call", a, tt] => self.call(a.parse().unwrap_or(99), t(tt), false).await,
-            ["call", a, tt, "m"] => self.call(a.parse().unwrap_or(99), t(tt), true).await,
+            ["call", a, tt] => self.call(a.parse().unwrap_or(99), t(tt), false, false).await,
+            ["call", a, tt, "m"] => self.call(a.parse().unwrap_or(99), t(tt), true, false).await,
+            ["call", a, tt, "d"] => self.call(a.parse().unwrap_or(99), t(tt), false, true).await,
             ["fcall", a, f, tt] => self.fcall(a.parse().unwrap_or(99), f.parse().unwrap_or(99), t(tt), false).await,
             ["fcall", a, f, tt, "m"] => self.fcall(a.parse().unwrap_or(99), f.parse().unwrap_or(99), t(tt), true).await,
             ["mcall", targets, tt] => {
@@ -556,7 +588,7 @@ async fn gen_case(log: &mut Log, st: &mut Stats, rng: &mut Rng, len: u64) {
         let a = rng.below(n as u64);
         let k = rng.below(100);
         let line = match k {
-            0..=29 => format!("call {a} {}{}", gen_timeout(rng), if rng.chance(1, 3) { " m" } else { "" }),
+            0..=29 => format!("call {a} {}{}", gen_timeout(rng), *rng.pick(&["", "", " m", " d"])),
             30..=59 => format!("handle {a} {}", gen_act(rng).show()),
             60..=68 => {
                 // prefer ports that exist
